@@ -19,7 +19,7 @@ RULE = ('cases = TT tensors / TT matrices of order 1..6, f32/f64/c64/c128, obtai
 ASSUMPTIONS = ['the unpickling policy is whatever the installed torch enforces (weights_only default) - that is the environment users have']
 REQUIRED_REACH = ['_extras:save', '_extras:load', '_tt_base:TT.clone', '_tt_base:TT.detach', '_tt_base:TT.cpu', '_tt_base:TT.to', '_tt_base:TT.numpy']
 REQUIRED_COUNTS = {'op:saveload': 1, 'op:clone': 1, 'clone_independence_histories': 20, 'copy_after_inplace_write_histories': 50, 'op:detach': 1, 'op:cpu': 1, 'op:to': 1, 'to-form:positional': 1, 'to-form:device=,dtype=': 1, 'op:numpy': 1, 'source:svd': 1, 'source:slice': 1, 'source:transpose': 1,
-                   'source:round': 1, 'source:buffer': 5, 'loaded_cores_bit_identical': 10, 'file_rewritten_after_load': 5}
+                   'source:round': 1, 'source:buffer': 5, 'loaded_cores_bit_identical': 10, 'default-dtype:float64-during-the-copy': 20, 'file_rewritten_after_load': 5}
 SOURCES = ['cores', 'svd', 'svd_ttm', 'slice', 'transpose', 'conj', 'round', 'sum', 'buffer', 'signed-zeros']
 OPS = ['saveload', 'clone', 'detach', 'detach_tracked', 'cpu', 'to', 'numpy']
 DTS = ['f64', 'f32', 'c128', 'c64']
@@ -111,6 +111,20 @@ def run_case(case, ctx):
     x = build(case, ctx, g)
     if not isinstance(x, torchtt.TT):
         return   # the source degenerated to a scalar
+    if case['seed'] % 5 == 0:
+        # the process-wide default dtype is float64 while the copy is taken (a user who called torch.set_default_dtype): the copy's dtype is the object's, not the default
+        prev = torch.get_default_dtype()
+        torch.set_default_dtype(torch.float64)
+        ctx.count('default-dtype:float64-during-the-copy')
+        try:
+            return _run_ops(case, ctx, g, x)
+        finally:
+            torch.set_default_dtype(prev)
+    return _run_ops(case, ctx, g, x)
+
+
+def _run_ops(case, ctx, g, x):
+    import torchtt
     op = case['op']
     ctx.count('op:' + op.split('_')[0])
     key = '%s/source=%s' % (op, case['source'])
